@@ -6,6 +6,11 @@ package xcrypto
 // exists so that range proofs produced by the real C++ library (test vectors,
 // recorded transactions) still verify.
 //
+// linkchain's 128-bit variant (tlv_proveRangeBulletproof128 /
+// tlv_verBulletproof128) is the same construction with N = 128 (7 + log2(M)
+// rounds, generators get_exponent(H, 0..)); this is pinned by a real 128-bit
+// proof embedded in /repo/wallet/wallet/transaction_test.go (TestSubaddrSpend).
+//
 // The C++ code folds both verification equations into one multi-exponentiation
 // using random weights. The model checks the two equations separately instead,
 // which is equivalent, deterministic and needs no randomness.
@@ -17,17 +22,12 @@ import (
 	ed "verif/sim/ed25519x"
 )
 
-const (
-	bpN    = 64
-	bpLogN = 6
-)
-
 var (
-	bpGenOnce sync.Once
+	bpGenMu   sync.Mutex
 	bpGi      []*ed.Point
 	bpHi      []*ed.Point
-	bpTwoN    []*ed.Scalar // 2^i, i < 64
-	bpIP12    *ed.Scalar   // <1^N, 2^N> = 2^64-1
+	bpTwoOnce sync.Once
+	bpTwoN    []*ed.Scalar // 2^i, i < 128
 )
 
 // bpGetExponent is get_exponent(base, idx):
@@ -41,24 +41,37 @@ func bpGetExponent(base *types.Key, idx uint64) *ed.Point {
 	return hashToPoint(h[:])
 }
 
-func bpInit() {
-	bpGenOnce.Do(func() {
-		total := bpN * bpMaxOutputs
-		bpGi = make([]*ed.Point, total)
-		bpHi = make([]*ed.Point, total)
-		for i := 0; i < total; i++ {
-			bpHi[i] = bpGetExponent(&keyH, uint64(2*i))
-			bpGi[i] = bpGetExponent(&keyH, uint64(2*i+1))
+// bpGenerators returns the first n generators Gi, Hi (computed on demand and
+// cached; the returned slices are never modified afterwards).
+func bpGenerators(n int) (gi, hi []*ed.Point) {
+	bpGenMu.Lock()
+	defer bpGenMu.Unlock()
+	if len(bpGi) < n {
+		// copy-on-grow so that slices handed out earlier stay valid
+		ngi := make([]*ed.Point, n)
+		nhi := make([]*ed.Point, n)
+		copy(ngi, bpGi)
+		copy(nhi, bpHi)
+		for i := len(bpGi); i < n; i++ {
+			nhi[i] = bpGetExponent(&keyH, uint64(2*i))
+			ngi[i] = bpGetExponent(&keyH, uint64(2*i+1))
 		}
-		bpTwoN = make([]*ed.Scalar, bpN)
+		bpGi, bpHi = ngi, nhi
+	}
+	return bpGi[:n], bpHi[:n]
+}
+
+// bpPowersOfTwo returns 2^i for i < 128.
+func bpPowersOfTwo() []*ed.Scalar {
+	bpTwoOnce.Do(func() {
+		bpTwoN = make([]*ed.Scalar, 128)
 		two := new(ed.Scalar).Add(scOne, scOne)
 		bpTwoN[0] = new(ed.Scalar).Set(scOne)
-		bpIP12 = new(ed.Scalar).Set(scOne)
-		for i := 1; i < bpN; i++ {
+		for i := 1; i < len(bpTwoN); i++ {
 			bpTwoN[i] = new(ed.Scalar).Multiply(bpTwoN[i-1], two)
-			bpIP12.Add(bpIP12, bpTwoN[i])
 		}
 	})
+	return bpTwoN
 }
 
 func bpMash(cache *types.Key, keys ...*types.Key) *ed.Scalar {
@@ -74,8 +87,13 @@ func bpMash(cache *types.Key, keys ...*types.Key) *ed.Scalar {
 
 func isZeroScalar(s *ed.Scalar) bool { return s.Equal(scZero) == 1 }
 
-// verBulletproofGenuine verifies one genuine Monero Bulletproof.
-func verBulletproofGenuine(proof *types.Bulletproof) bool {
+// verBulletproofGenuine verifies one genuine Bulletproof over bits-wide amounts
+// (64: Monero, 128: linkchain variant).
+func verBulletproofGenuine(proof *types.Bulletproof, bits int) bool {
+	bpN, bpLogN := 64, 6
+	if bits == 128 {
+		bpN, bpLogN = 128, 7
+	}
 	// scalar range
 	var taux, mu, a, b, t *ed.Scalar
 	for _, f := range []struct {
@@ -102,7 +120,13 @@ func verBulletproofGenuine(proof *types.Bulletproof) bool {
 	M := 1 << uint(logM)
 	MN := M * bpN
 	rounds := logM + bpLogN
-	bpInit()
+	bpGi, bpHi := bpGenerators(MN)
+	bpTwoN := bpPowersOfTwo()
+	// <1^N, 2^N> = 2^N - 1
+	bpIP12 := ed.NewScalar()
+	for i := 0; i < bpN; i++ {
+		bpIP12.Add(bpIP12, bpTwoN[i])
+	}
 
 	// Reconstruct the challenges.
 	vbuf := make([]byte, 0, 32*len(proof.V))
